@@ -73,7 +73,7 @@ def reindex_case(draw):
     ax = draw(st.integers(0, len(spec["dims"]) - 1))
     new = draw(new_labels(spec["labels"][ax]))
     method = draw(st.sampled_from([None, None, None, "left", "right"]))
-    return {"mode": "axis", "spec": spec, "ax": ax, "axis_form": draw(st.sampled_from(["name", "pos"])), "new": new,
+    return {"mode": "axis", "spec": spec, "ax": ax, "axis_form": draw(st.sampled_from(["name", "pos", "neg"])), "new": new,
             "as": draw(st.sampled_from(["list", "array", "axis"])), "fill": draw(st.sampled_from(["nan", "nan", "nan", -1, "missing", 0, ""])),
             # raise_error is only combined with method=None: with a method nothing is ever filled, the statement does not say what "missing" means
             "raise_error": draw(st.sampled_from([False, False, True])) if method is None else False, "method": method}
@@ -169,7 +169,7 @@ def run_axis(case):
         kw = {}
     else:
         newobj = list(new) if case["as"] == "list" else (core.label_array(new) if new else np.array([], dtype=core.label_array(labels[ax]).dtype))
-        kw = {"axis": dims[ax] if case["axis_form"] == "name" else ax}
+        kw = {"axis": dims[ax] if case["axis_form"] == "name" else (ax if case["axis_form"] == "pos" else ax - len(dims))}
     if case["fill"] != "nan":
         kw["fill_value"] = fill
     if case["raise_error"]:
